@@ -276,16 +276,21 @@ section exact
 variable {μ : Type} [Mem μ ℝ] (st : μ)
 
 /-- the matrix strategy of `evaluate` is `Σ_{ℓ=c}^{L} Σ_m f_{ℓm} · sYlm_{ℓm}`: the slices pair each weight with the
-    sYlm of the same (ℓ, m) (`eval_slices_align`, here through the re-indexing of the flat sum) -/
+    sYlm of the same (ℓ, m) (`eval_slices_align`, here through the re-indexing of the flat sum); for `L + 1 < c`
+    both sides are empty sums -/
 theorem evaluateMatrix_eq_sum (f zaArr : Array (Cx ℝ)) (zgpowY : Cx ℝ) (s c Lc : ℤ) (L : ℕ)
-    (h0 : 0 ≤ c) (hL : (L : ℤ) ≤ Lc) (hn : c ≤ L + 1) :
+    (h0 : 0 ≤ c) (hL : (L : ℤ) ≤ Lc) :
     toC (evaluateMatrix st f zaArr zgpowY s c Lc L) =
       ∑ ell ∈ Finset.Icc c.toNat L, ∑ m ∈ Finset.Icc (-(ell : ℤ)) ell,
         toC (fAt f ell m) * toC (sYlmEntry st zaArr zgpowY s ell m) := by
+  by_cases hn : c ≤ L + 1
+  swap
+  · rw [evaluateMatrix_empty st f zaArr zgpowY s c Lc L (by omega) (by omega), toC_zero,
+      Finset.Icc_eq_empty (by omega), Finset.sum_empty]
   obtain ⟨c', rfl⟩ := Int.eq_ofNat_of_zero_le h0
   obtain ⟨d, hd⟩ : ∃ d : ℕ, L + 1 = c' + d := ⟨L + 1 - c', by omega⟩
   unfold evaluateMatrix dotSlices
-  rw [eval_slices_closed (c' : ℤ) L h0]
+  rw [eval_slices_closed_pos (c' : ℤ) L h0 hn]
   simp only
   have hnat : (((L : ℤ) + 1) ^ 2 - (c' : ℤ) ^ 2).toNat = d * (2 * c' + d) := by
     have : ((L : ℤ) + 1) = c' + d := by exact_mod_cast hd
@@ -313,22 +318,23 @@ theorem evaluateMatrix_eq_sum (f zaArr : Array (Cx ℝ)) (zgpowY : Cx ℝ) (s c 
   rfl
 
 /-- **`evaluate`: matrix strategy = Horner strategy** in exact arithmetic, for every content of the H workspace.
-    Guards: `0 ≤ c` (constructor), `c ≤ max(|s|, 0)` (second guard of `evaluate`), `L ≤ Lc` (third guard); extra:
-    `c ≤ L + 1` (see `eval_slices_negative`).  Remaining hypotheses as in `Routes.evaluate_eq_sum_sYlm` (the powers
+    Guards: `0 ≤ c` (constructor), `c ≤ max(|s|, 0)` (second guard of `evaluate`), `L ≤ Lc` (third guard) — nothing
+    else: every guard-passing configuration is covered (for `L + 1 < c ≤ |s|` the matrix route contracts two empty
+    slices and the Horner loop `range(|s|, L+1)` is empty: both give 0).  Remaining hypotheses as in `Routes.evaluate_eq_sum_sYlm` (the powers
     array, the two library powers, `|zᵧ| = 1`).  No hypothesis on the weights is needed: the weights with ℓ < c
     are dropped by the slice and skipped by `_evaluate_Horner` (it starts at ℓ = |s| ≥ c); for `c ≤ ℓ < |s|` the
     sYlm entry is the literal 0.  (In floating point the latter products are `f·0`, which is 0 only for finite
     `f`; a Modes object has zeros there.) -/
 theorem evaluateMatrix_eq_horner (f : Array (Cx ℝ)) (za zg zgpowE zgpowY : Cx ℝ)
     (zaArr : Array (Cx ℝ)) (s c Lc : ℤ) (L : ℕ) (prev : Cx ℝ)
-    (h0 : 0 ≤ c) (hs : c ≤ max (s.natAbs : ℤ) 0) (hL : (L : ℤ) ≤ Lc) (hn : c ≤ L + 1)
+    (h0 : 0 ≤ c) (hs : c ≤ max (s.natAbs : ℤ) 0) (hL : (L : ℤ) ≤ Lc)
     (hza : ∀ k ≤ L, toC (cget zaArr k) = toC za ^ k)
     (hnorm : Complex.normSq (toC zg) = 1)
     (hE : toC zgpowE = (starRingEnd ℂ (toC zg)) ^ s)
     (hY : toC zgpowY = toC zg ^ s.natAbs) :
     toC (evaluateMatrix st f zaArr zgpowY s c Lc L) =
       toC (evaluateHornerK st f za zgpowE s L prev) := by
-  rw [evaluateMatrix_eq_sum st f zaArr zgpowY s c Lc L h0 hL hn]
+  rw [evaluateMatrix_eq_sum st f zaArr zgpowY s c Lc L h0 hL]
   show _ = toC (evaluateHorner st f za zgpowE s L ⟨_root_.zero, _root_.zero⟩)
   rw [Routes.evaluate_eq_sum_sYlm st f za zg zgpowE zgpowY zaArr s L hza hnorm hE hY]
   symm
@@ -394,7 +400,7 @@ end exact
 /-! ## 5. the hypotheses are the guards; concrete configurations -/
 
 /-- the integer hypotheses of `eval_slices_align` / `eval_dropped_weights_are_low` / `evaluateMatrix_eq_horner`
-    other than `c ≤ L + 1` are exactly what the generated guards of the constructor and of `evaluate` give
+    are exactly what the generated guards of the constructor and of `evaluate` give
     (modes' `ell_min = 0`) -/
 theorem eval_guards_give_hyps (c Lc P0 P s L : Int) (hinit : Wigner___init___ok c Lc P0 = true)
     (hev : Wigner_evaluate_ok s 0 L P c Lc = true) :
@@ -454,7 +460,18 @@ example {μ : Type} [Mem μ ℝ] (st : μ) (f : Array (Cx ℝ)) (a g : ℂ) (hg 
     toC (evaluateMatrix st f (powArr a 5) (ofC (g ^ 3)) (-3) 2 7 5) =
       toC (evaluateHornerK st f (ofC a) (ofC ((starRingEnd ℂ g) ^ (-3 : ℤ))) (-3) 5 prev) :=
   evaluateMatrix_eq_horner st f (ofC a) (ofC g) _ _ _ (-3) 2 7 5 prev (by decide) (by decide)
-    (by decide) (by decide) (powArr_spec a 5) hg rfl rfl
+    (by decide) (powArr_spec a 5) hg rfl rfl
+
+/-- … and at the empty configuration `Wigner(8, ell_min=3)`, `s = -3`, `ell_max = 1`: both routes give 0 -/
+example {μ : Type} [Mem μ ℝ] (st : μ) (f : Array (Cx ℝ)) (a g : ℂ) (hg : Complex.normSq g = 1)
+    (prev : Cx ℝ) :
+    toC (evaluateMatrix st f (powArr a 1) (ofC (g ^ 3)) (-3) 3 8 1) = 0
+    ∧ toC (evaluateHornerK st f (ofC a) (ofC ((starRingEnd ℂ g) ^ (-3 : ℤ))) (-3) 1 prev) = 0 := by
+  have h := evaluateMatrix_eq_horner st f (ofC a) (ofC g) (ofC ((starRingEnd ℂ g) ^ (-3 : ℤ)))
+    (ofC (g ^ 3)) (powArr a 1) (-3) 3 8 1 prev (by decide) (by decide) (by decide) (powArr_spec a 1) hg rfl rfl
+  have h0 : toC (evaluateMatrix st f (powArr a 1) (ofC (g ^ 3)) (-3) 3 8 1) = 0 := by
+    rw [evaluateMatrix_empty st f _ _ (-3) 3 8 1 (by decide) (by decide), toC_zero]
+  exact ⟨h0, h ▸ h0⟩
 
 /-- `rotateMatrix_eq_horner` at that configuration, entry (ℓ, m) = (3, -2) -/
 example {μ : Type} [Mem μ ℝ] (st : μ) (f : Array (Cx ℝ)) (a g : ℂ) (hg : Complex.normSq g = 1) :
